@@ -72,6 +72,9 @@ func compClass(c string) string {
 	if c == "alloc" {
 		return "other"
 	}
+	if strings.HasPrefix(c, "Seen$") || strings.HasPrefix(c, "Pos$") {
+		return "local" // iterator state of this activation: no callee can reach it
+	}
 	for t, cl := range classOverride {
 		if strings.Contains(c, t+"$") || strings.HasSuffix(c, t) || strings.Contains(c, t+".R") {
 			return cl
@@ -131,9 +134,13 @@ type Obligation struct {
 	Known   *KnownFinding
 	NotClaimed string
 	PartExpr Expr // the (part of the) contract clause this obligation checks, for replay
+	Batch    string // post-conditions checked at one return point may be discharged by one query
+	probe    bool   // a batch query: one attempt, no candidate search
 }
 
 type FnVC struct {
+	stores map[string]storeInfo
+	nMapUpdates int
 	prog     *Prog
 	enc      *Enc
 	fn       *ssa.Function
@@ -203,7 +210,7 @@ type loopInfo struct {
 }
 
 func newFnVC(p *Prog, fn *ssa.Function, fc *FuncContract, id string) *FnVC {
-	vc := &FnVC{prog: p, enc: newEnc(p), fn: fn, fc: fc, id: id,
+	vc := &FnVC{prog: p, enc: newEnc(p), fn: fn, fc: fc, id: id, nMapUpdates: -1,
 		vals: map[ssa.Value]Val{}, reach: map[*ssa.BasicBlock]string{}, out: map[*ssa.BasicBlock]*State{},
 		compSort: map[string]string{}, params: map[string]Val{}, freshRef: map[string]bool{},
 		loops: map[*ssa.BasicBlock]*loopInfo{}, backEdge: map[[2]*ssa.BasicBlock]bool{}, oblNames: map[string]int{},
@@ -302,6 +309,9 @@ func (vc *FnVC) oblige(class, detail, goal string, tags []string, src string) *O
 	}
 	o := &Obligation{Name: name, Class: class, Func: vc.shortName(), Goal: g, Prefix: len(vc.stream), Tags: tags, Pos: pos, Expect: "unsat", Detail: detail, Src: src, vc: vc}
 	vc.obls = append(vc.obls, o)
+	if class == "post" && vc.curBlock != nil {
+		o.Batch = fmt.Sprintf("%p/b%d", vc, vc.curBlock.Index)
+	}
 	if class != "post" {
 		vc.emit(g)
 	}
@@ -403,10 +413,90 @@ func (vc *FnVC) cur(st *State, comp string) string {
 	return vc.compInit(st, comp)
 }
 
+// storeInfo: a component version known to equal `base` except at the listed references (it was
+// obtained from base by stores at those references only). Lets a merge define the joined version
+// by stores over the common base instead of equalities between whole arrays.
+type storeInfo struct {
+	base string
+	refs []string
+}
+
+// noteStore records the provenance of version n when term is `(store <prev> <ref> <val>)`.
+func (vc *FnVC) noteStore(n, prev, term string) {
+	pfx := "(store " + prev + " "
+	if !strings.HasPrefix(term, pfx) {
+		return
+	}
+	rest := term[len(pfx):]
+	ref := firstSexp(rest)
+	if ref == "" {
+		return
+	}
+	if vc.stores == nil {
+		vc.stores = map[string]storeInfo{}
+	}
+	info := storeInfo{base: prev}
+	if pi, ok := vc.stores[prev]; ok {
+		info = storeInfo{base: pi.base, refs: append([]string(nil), pi.refs...)}
+	}
+	for _, r := range info.refs {
+		if r == ref {
+			vc.stores[n] = info
+			return
+		}
+	}
+	info.refs = append(info.refs, ref)
+	vc.stores[n] = info
+}
+
+// firstSexp returns the first balanced s-expression (or atom) of s.
+func firstSexp(s string) string {
+	if s == "" {
+		return ""
+	}
+	if s[0] != '(' {
+		if s[0] == '"' {
+			return ""
+		}
+		k := strings.IndexAny(s, " )")
+		if k < 0 {
+			return s
+		}
+		return s[:k]
+	}
+	depth := 0
+	inStr := false
+	for i := 0; i < len(s); i++ {
+		c := s[i]
+		if inStr {
+			if c == '"' {
+				inStr = false
+			}
+			continue
+		}
+		switch c {
+		case '"':
+			inStr = true
+		case '(':
+			depth++
+		case ')':
+			depth--
+			if depth == 0 {
+				return s[:i+1]
+			}
+		}
+	}
+	return ""
+}
+
 func (vc *FnVC) setComp(st *State, comp, term string) {
 	// name the new version
+	prev := st.comp[comp]
 	n := vc.enc.freshConst(comp, vc.compSort[comp])
 	vc.emit(eq(n, term))
+	if prev != "" {
+		vc.noteStore(n, prev, term)
+	}
 	st.comp[comp] = n
 	st.base[comp] = n
 }
@@ -414,8 +504,12 @@ func (vc *FnVC) setComp(st *State, comp, term string) {
 // setCompFresh: a write known to hit an object allocated in this activation.
 func (vc *FnVC) setCompFresh(st *State, comp, term string) {
 	b := vc.curBase(st, comp)
+	prev := st.comp[comp]
 	n := vc.enc.freshConst(comp, vc.compSort[comp])
 	vc.emit(eq(n, term))
+	if prev != "" {
+		vc.noteStore(n, prev, term)
+	}
 	st.comp[comp] = n
 	st.base[comp] = b
 }
@@ -457,6 +551,7 @@ func (vc *FnVC) havocAll(st *State, keep ...string) {
 	for _, k := range keep {
 		kept[k] = true
 	}
+	kept["local"] = true
 	old := st.comp
 	oldState := &State{ep: st.ep, comp: old}
 	restore := map[string]string{}
